@@ -702,11 +702,13 @@ impl<'a> ArxmlParser<'a> {
                 // the attribute value should be enclosed in quotes
                 break;
             }
-            rem = &rem[equals_pos + 2..];
-            let Some(endquote_pos) = rem.iter().position(|c| c == &quote_char) else {
+            // look for the end of the attribute value before advancing `rem`: when it is missing, the left-over
+            // text check below must still see the attribute name and the opening quote
+            let Some(endquote_pos) = rem[equals_pos + 2..].iter().position(|c| c == &quote_char) else {
                 // failed to find the end of the attribute value
                 break;
             };
+            rem = &rem[equals_pos + 2..];
             let attr_value_part = &rem[..endquote_pos];
 
             if let Ok(attr_name) = AttributeName::from_bytes(attr_name_part) {
